@@ -36,6 +36,7 @@
 package main
 
 import (
+	"os/exec"
 	"runtime/debug"
 	"bytes"
 	"crypto/ed25519"
@@ -294,6 +295,9 @@ func validTickets(rng *h.Rng, pre *types.State, slot types.TimeSlot) types.Ticke
 		}
 	}
 	n := 1 + rng.Intn(types.MaxTicketsPerBlock)
+	if rng.Chance(2, 3) {
+		n = types.MaxTicketsPerBlock
+	}
 	for i := len(cands) - 1; i > 0; i-- {
 		j := rng.Intn(i + 1)
 		cands[i], cands[j] = cands[j], cands[i]
@@ -574,6 +578,12 @@ func sanitize(s string) string {
 // error kind: message text without the hash fragments it may quote
 func errKind(err error) string {
 	s := err.Error()
+	switch {
+	case strings.Contains(s, "is not part of the finalized block"), strings.Contains(s, "is already finalized"):
+		return "refused_ancestry" // the node's admission policy (two message variants, chosen by a block-number index lookup)
+	case strings.Contains(s, "failed to restore block and state"):
+		return "refused_noparent"
+	}
 	var sb strings.Builder
 	for i := 0; i < len(s); i++ {
 		if s[i] == '0' && i+1 < len(s) && s[i+1] == 'x' { // skip 0x....
@@ -680,6 +690,13 @@ func (x *ids) bid(b *types.Block) int {
 	return len(x.blocks) - 1
 }
 
+func b2i(b bool) int {
+	if b {
+		return 1
+	}
+	return 0
+}
+
 func headerHash(hd types.Header) types.HeaderHash {
 	hh, err := hash.ComputeBlockHeaderHash(hd)
 	if err != nil {
@@ -694,7 +711,7 @@ type histResult struct {
 }
 
 // generate-and-run on node A
-func runA(rng *h.Rng, nops int, anc, rich bool, st h.Stats) histResult {
+func runA(rng *h.Rng, nops int, anc, rich bool, st h.Stats, script []string) histResult {
 	x := &ids{hashes: map[types.HeaderHash]int{}, blocks: map[string]int{}}
 	r := &runner{}
 	var out histResult
@@ -702,11 +719,29 @@ func runA(rng *h.Rng, nops int, anc, rich bool, st h.Stats) histResult {
 	var refused []op         // refused imports (for retries)
 	var allHashes []types.HeaderHash
 	var head *known
+	// The node keeps the states of the last 24 accepted imports only (fuzzenv.FuzzPersistentRetainBlocks; pruning is
+	// outside the model): a hash is used for GetState / as fork parent / for re-import only while fewer than
+	// `window` imports were accepted since its FIRST acceptance.
+	const window = 14
+	accCount := 0
+	firstAcc := map[types.HeaderHash]int{}
+	eligible := func(hh types.HeaderHash) bool {
+		f, ok := firstAcc[hh]
+		return ok && accCount-f < window
+	}
 	push := func(o op) string {
 		res, k := r.exec(&o)
 		out.ops = append(out.ops, o)
 		out.results = append(out.results, res)
 		if k != nil {
+			if o.kind == 'S' {
+				accCount = 0
+				firstAcc = map[types.HeaderHash]int{}
+			}
+			accCount++
+			if _, ok := firstAcc[k.hash]; !ok {
+				firstAcc[k.hash] = accCount
+			}
 			good = append(good, k)
 			head = k
 		} else if o.kind == 'I' && !strings.HasPrefix(res, "ok:") {
@@ -719,23 +754,55 @@ func runA(rng *h.Rng, nops int, anc, rich bool, st h.Stats) histResult {
 		hh := headerHash(hdr)
 		good, refused, head = nil, nil, nil
 		allHashes = append(allHashes, hh)
-		push(op{kind: 'S', variant: variant, anc: anc, hash: hh, text: fmt.Sprintf("S.g%d.h%d", variant, x.hid(hh))})
+		push(op{kind: 'S', variant: variant, anc: anc, hash: hh, text: fmt.Sprintf("S.g%d.h%d.t%d.a%d", variant, x.hid(hh), hdr.Slot, b2i(anc))})
 		st.Inc("op-setstate")
 	}
 	imp := func(b types.Block, label string) string {
 		hh := headerHash(b.Header)
+		feat := ""
+		if b.Header.EpochMark != nil {
+			feat += "E" // first block of an epoch
+		}
+		if b.Header.TicketsMark != nil {
+			feat += "W" // winning-tickets marker
+		}
+		for _, k := range good {
+			if k.hash == b.Header.Parent {
+				if len(viewOf(&k.state, b.Header.Slot).tickets) > 0 {
+					feat += "T" // sealed with a ticket (not a fallback key)
+				}
+				break
+			}
+		}
+		if len(b.Extrinsic.Tickets) > 0 {
+			feat += "x"
+		}
+		if len(b.Extrinsic.Assurances) > 0 {
+			feat += "a"
+		}
+		base := label
+		if feat != "" {
+			label += "+" + feat
+		}
 		allHashes = append(allHashes, hh)
 		res := push(op{kind: 'I', blk: b, hash: hh,
-			text: fmt.Sprintf("I.b%d.h%d.p%d.%s", x.bid(&b), x.hid(hh), x.hid(b.Header.Parent), label)})
+			text: fmt.Sprintf("I.b%d.h%d.p%d.t%d.%s", x.bid(&b), x.hid(hh), x.hid(b.Header.Parent), b.Header.Slot, label)})
 		cls := res
 		if i := strings.IndexByte(res, ':'); i >= 0 {
 			cls = res[:i]
 		}
-		st.Inc("import-" + label + "-" + cls)
+		st.Inc("import-" + base + "-" + cls)
+		for _, c := range feat {
+			st.Inc("feature-" + map[rune]string{'E': "epoch-change", 'W': "tickets-mark", 'T': "ticket-sealed", 'x': "tickets-extrinsic", 'a': "assurances"}[c] + "-" + cls)
+		}
 		return res
 	}
+	campaign := rich && rng.Bool() // consecutive slots and full ticket extrinsics, so that a ticket-sealed epoch is reached
 	nextSlot := func(k *known) types.TimeSlot {
 		E := types.TimeSlot(types.EpochLength)
+		if campaign && rng.Chance(9, 10) {
+			return k.slot + 1
+		}
 		switch rng.Intn(10) {
 		case 0: // first slot of the next epoch
 			return k.slot - k.slot%E + E
@@ -748,14 +815,68 @@ func runA(rng *h.Rng, nops int, anc, rich bool, st h.Stats) histResult {
 		}
 	}
 	recent := func() *known { // a recently accepted state (within the node's retention window)
-		n := len(good)
-		w := 8
-		if n < w {
-			w = n
+		var c []*known
+		for i := len(good) - 1; i >= 0 && len(good)-i <= 8; i-- {
+			if eligible(good[i].hash) {
+				c = append(c, good[i])
+			}
 		}
-		return good[n-1-rng.Intn(w)]
+		if len(c) == 0 {
+			return head
+		}
+		return c[rng.Intn(len(c))]
 	}
-	setState(rng.Intn(6))
+	if script != nil {
+		// scripted history (corpus / hand-written witnesses): set<v> child child+<n> fork bad:<kind> retry again get
+		for _, a := range script {
+			if head == nil && !strings.HasPrefix(a, "set") {
+				break
+			}
+			switch {
+			case strings.HasPrefix(a, "set"):
+				setState(h.I(a[3:]))
+			case a == "child":
+				imp(author(rng, &head.state, head.hash, head.root, head.slot+1, rich), "child")
+			case strings.HasPrefix(a, "child+"):
+				imp(author(rng, &head.state, head.hash, head.root, head.slot+types.TimeSlot(h.I(a[6:])), rich), "child")
+			case a == "fork": // sibling of the head: another child of the state accepted before it
+				if len(good) >= 2 {
+					k := good[len(good)-2]
+					imp(author(rng, &k.state, k.hash, k.root, head.slot+1, rich), "fork")
+				}
+			case strings.HasPrefix(a, "oldfork"): // child of the state accepted before the head, at a slot below the head's
+				if len(good) >= 2 {
+					k := good[len(good)-2]
+					imp(author(rng, &k.state, k.hash, k.root, k.slot+1, rich), "fork")
+				}
+			case strings.HasPrefix(a, "bad:"):
+				imp(mutate(rng, a[4:], &head.state, head.hash, head.root, head.slot+1), a[4:])
+			case strings.HasPrefix(a, "badold:"): // invalid block on the state accepted before the head
+				if len(good) >= 2 {
+					k := good[len(good)-2]
+					imp(mutate(rng, a[7:], &k.state, k.hash, k.root, head.slot+1), a[7:])
+				}
+			case a == "retry":
+				if len(refused) > 0 {
+					imp(refused[len(refused)-1].blk, "retry")
+				}
+			case a == "again":
+				for i := len(out.ops) - 1; i >= 0; i-- {
+					if out.ops[i].kind == 'I' && strings.HasPrefix(out.results[i], "ok:") {
+						imp(out.ops[i].blk, "again")
+						break
+					}
+				}
+			case a == "get":
+				push(op{kind: 'G', hash: head.hash, text: fmt.Sprintf("G.h%d", x.hid(head.hash))})
+			default:
+				panic("verifh: bad script action " + a)
+			}
+		}
+		nops = 0
+	} else {
+		setState(rng.Intn(6))
+	}
 	for len(out.ops) < nops {
 		if head == nil { // SetState failed: nothing to build on
 			break
@@ -782,11 +903,14 @@ func runA(rng *h.Rng, nops int, anc, rich bool, st h.Stats) histResult {
 			if rng.Chance(1, 3) {
 				o = refused[rng.Intn(len(refused))]
 			}
+			if _, was := firstAcc[o.blk.Header.Parent]; was && !eligible(o.blk.Header.Parent) {
+				continue // its parent may have left the node's retention window
+			}
 			imp(o.blk, "retry")
 		case c < 85: // re-import an accepted block
 			var cand []op
 			for i, o := range out.ops {
-				if o.kind == 'I' && strings.HasPrefix(out.results[i], "ok:") {
+				if o.kind == 'I' && strings.HasPrefix(out.results[i], "ok:") && eligible(o.hash) {
 					cand = append(cand, o)
 				}
 			}
@@ -811,21 +935,14 @@ func runA(rng *h.Rng, nops int, anc, rich bool, st h.Stats) histResult {
 				hh = recent().hash
 			case 2:
 				hh = allHashes[rng.Intn(len(allHashes))]
-				// old accepted states may have left the node's retention window: only query hashes of this window
-				okh := false
-				for i := len(good) - 1; i >= 0 && i >= len(good)-8; i-- {
-					okh = okh || good[i].hash == hh
-				}
-				if !okh {
-					for _, o := range refused {
-						okh = okh || o.hash == hh
-					}
-				}
-				if !okh {
-					hh = head.hash
-				}
 			default:
 				hh = types.HeaderHash(blake2b.Sum256(rng.Bytes(8)))
+			}
+			if _, was := firstAcc[hh]; was && !eligible(hh) { // accepted long ago: may have left the retention window
+				hh = recent().hash
+				if !eligible(hh) {
+					continue
+				}
 			}
 			push(op{kind: 'G', hash: hh, text: fmt.Sprintf("G.h%d", x.hid(hh))})
 			st.Inc("op-getstate")
@@ -836,13 +953,13 @@ func runA(rng *h.Rng, nops int, anc, rich bool, st h.Stats) histResult {
 	// closing re-reads: every hash of the last window again (aliasing / late corruption shows here)
 	seen := map[types.HeaderHash]bool{}
 	for i := len(good) - 1; i >= 0 && i >= len(good)-8; i-- {
-		if !seen[good[i].hash] {
+		if !seen[good[i].hash] && eligible(good[i].hash) {
 			seen[good[i].hash] = true
 			push(op{kind: 'G', hash: good[i].hash, text: fmt.Sprintf("G.h%d", x.hid(good[i].hash))})
 		}
 	}
 	for _, o := range refused {
-		if !seen[o.hash] {
+		if _, was := firstAcc[o.hash]; !seen[o.hash] && !was {
 			seen[o.hash] = true
 			push(op{kind: 'G', hash: o.hash, text: fmt.Sprintf("G.h%d", x.hid(o.hash))})
 		}
@@ -866,7 +983,7 @@ func replay(ops []op, keep []bool) []string {
 
 func gen(rng *h.Rng, tier string, emit func(string)) {
 	st := h.Stats{}
-	n := 160
+	n := 110
 	if tier == "thorough" {
 		n = 2500
 	}
@@ -875,26 +992,44 @@ func gen(rng *h.Rng, tier string, emit func(string)) {
 		if i%10 == 9 {
 			nops = 120
 		}
-		emit(fmt.Sprintf("hist %d %d %d %d", rng.U64()>>1, nops, rng.Intn(4)/3, rng.Intn(3)/1%2))
+		c := fmt.Sprintf("hist %d %d %d %d", rng.U64()>>1, nops, rng.Intn(4)/3, rng.Intn(2))
+		emit(c)
 		st.Inc("histories")
+		if i < 24 { // distribution of what the histories contain, measured on a sample (generation = execution on node A)
+			f := strings.Fields(c)
+			sst := h.Stats{}
+			h.Guard(func() string { runA(h.NewRng(h.U(f[1])), h.I(f[2]), f[3] == "1", f[4] == "1", sst, nil); return "" })
+			for k, v := range sst {
+				st["sample24-"+k] += v
+			}
+		}
 	}
 	h.EmitStats(emit, st)
 }
 
 func run(input string) string {
 	f := strings.Fields(input)
-	if len(f) != 5 || f[0] != "hist" {
+	if len(f) != 5 || (f[0] != "hist" && f[0] != "script") {
 		return "BADCASE"
 	}
+	// hist <seed> <nops> <anc> <tix>   |   script <seed> <a1,a2,...> <anc> <tix>
 	rng := h.NewRng(h.U(f[1]))
 	st := h.Stats{}
-	a := runA(rng, h.I(f[2]), f[3] == "1", f[4] == "1", st)
+	var a histResult
+	if f[0] == "script" {
+		a = runA(rng, 0, f[3] == "1", f[4] == "1", st, strings.Split(f[2], ","))
+	} else {
+		a = runA(rng, h.I(f[2]), f[3] == "1", f[4] == "1", st, nil)
+	}
 	var parts []string
 	ar := make([]string, len(a.ops))
 	for i := range a.ops {
 		ar[i] = a.ops[i].text + "=" + a.results[i]
 	}
-	parts = append(parts, "A "+strings.Join(ar, " "))
+	parts = append(parts, "A m=- "+strings.Join(ar, " "))
+	if os.Getenv("C26_SUB") != "" {
+		return parts[0]
+	}
 	// B1: all refused imports removed; B2: a random subset removed
 	keep1 := make([]bool, len(a.ops))
 	keep2 := make([]bool, len(a.ops))
@@ -903,9 +1038,38 @@ func run(input string) string {
 		keep1[i] = !ref
 		keep2[i] = !ref || rng.Bool()
 	}
-	parts = append(parts, "B1 "+strings.Join(replay(a.ops, keep1), " "))
-	parts = append(parts, "B2 "+strings.Join(replay(a.ops, keep2), " "))
-	parts = append(parts, "A2 "+strings.Join(replay(a.ops, nil), " "))
+	mask := func(keep []bool) string {
+		b := make([]byte, len(keep))
+		for i, k := range keep {
+			b[i] = '1' // 1 = deleted
+			if k {
+				b[i] = '0'
+			}
+		}
+		return "m=" + string(b) + " "
+	}
+	all := make([]bool, len(a.ops))
+	for i := range all {
+		all[i] = true
+	}
+	parts = append(parts, "B1 "+mask(keep1)+strings.Join(replay(a.ops, keep1), " "))
+	parts = append(parts, "B2 "+mask(keep2)+strings.Join(replay(a.ops, keep2), " "))
+	parts = append(parts, "A2 "+mask(all)+strings.Join(replay(a.ops, nil), " "))
+	// X: the same history generated and executed again in a freshly started process (a really fresh node)
+	if os.Getenv("C26_SUB") == "" && (f[0] == "script" || h.U(f[1])%4 == 0) {
+		cmd := exec.Command(os.Args[0], "run")
+		cmd.Env = append(os.Environ(), "C26_SUB=1")
+		cmd.Stdin = strings.NewReader(input + "\n")
+		outb, err := cmd.Output()
+		x := "X " + mask(all) + "SUBPROCESS-FAILED"
+		if err == nil {
+			line := strings.TrimSpace(string(outb))
+			if i := strings.Index(line, " | A m=- "); i >= 0 {
+				x = "X " + mask(all) + line[i+9:]
+			}
+		}
+		parts = append(parts, x)
+	}
 	return strings.Join(parts, " # ")
 }
 
